@@ -31,7 +31,8 @@ def main():
         dst = os.path.join(SCRATCH, "repo")
         os.makedirs(SCRATCH, exist_ok=True)
         subprocess.check_call(["rsync", "-a", "--delete", "--exclude", "target", "--exclude", ".git", "/repo/", dst + "/"])
-        r = subprocess.run(["patch", "-p1", "--no-backup-if-mismatch", "-i", os.path.join(d, "patch.diff")], cwd=dst, stdout=subprocess.PIPE, stderr=subprocess.STDOUT, text=True)
+        pf = os.path.join(d, "patch_rebased.diff") if os.path.exists(os.path.join(d, "patch_rebased.diff")) else os.path.join(d, "patch.diff")
+        r = subprocess.run(["patch", "-p1", "--no-backup-if-mismatch", "-i", pf], cwd=dst, stdout=subprocess.PIPE, stderr=subprocess.STDOUT, text=True)
         if r.returncode != 0:
             print("%s: patch does not apply to the current tree:\n%s" % (sid, r.stdout))
             rows.append((sid, "PATCH-FAILED", []))
